@@ -146,6 +146,12 @@ Definition lockfile_shape_ok : bool :=
          (calls (lookup "createLockFile")) &&
   subseq ["os.Remove"; "f.Close"] (calls (lookup "osLockFile_Unlock")).
 
+(* Open never releases (= removes) the lock file: the lock file is the only persistent record that
+   the last session did not complete Close *)
+Definition open_keeps_lock : bool :=
+  negb (existsb (fun c => String.eqb c "lock.Unlock" || String.eqb c "db.lock.Unlock") (calls (lookup "Open"))) &&
+  subseq ["createLockFile"; "backupNonsegmentFiles"; "openIndex"; "openDatalog"; "db.recover"] (calls (lookup "Open")).
+
 Theorem shape_all_guarded : all_guarded = true. Proof. vm_compute. reflexivity. Qed.
 Theorem shape_lock_order : lock_order_ok = true. Proof. vm_compute. reflexivity. Qed.
 Theorem shape_single_region : single_region_ops = true. Proof. vm_compute. reflexivity. Qed.
@@ -156,3 +162,4 @@ Theorem shape_seal_syncs : seal_syncs = true. Proof. vm_compute. reflexivity. Qe
 Theorem shape_backup : backup_shape_ok = true. Proof. vm_compute. reflexivity. Qed.
 Theorem shape_results_copied : results_copied = true. Proof. vm_compute. reflexivity. Qed.
 Theorem shape_lockfile : lockfile_shape_ok = true. Proof. vm_compute. reflexivity. Qed.
+Theorem shape_open_keeps_lock : open_keeps_lock = true. Proof. vm_compute. reflexivity. Qed.
